@@ -1003,7 +1003,7 @@ class World:
             self.w.C_CloseSession(s=sh)
             self.on_session_closed(sh)
             self.count("persistence_views_checked")
-        if self.ref is not None and self.stage is not None and self.stage.sb.backend == "file":
+        if self.ref is not None and self.stage is not None:
             self.verify_directory(why)
 
     @staticmethod
